@@ -14,6 +14,7 @@ class StmtMixin:
             if self.state is None:
                 return
             self.cur_stmt = st
+            self.visited.add(id(st))
             m = getattr(self, 'st_' + type(st).__name__, None)
             if m is None:
                 self.unsupported(st, f'statement {type(st).__name__}')
@@ -40,6 +41,13 @@ class StmtMixin:
 
     def st_Return(self, st):
         v = self.ev(st.value) if st.value is not None else NONE
+        if v.clock or any(i.clock for i in (v.items or ())):
+            self.event('clock', None, 'return', st, f'a clock-dependent value is returned: {src(st, 60)}')
+        self.escape_value(v, st)               # a returned closure runs in the caller: analyse its body once
+        for i in (v.items or ()):
+            self.escape_value(i, st)
+        if self.state is None:
+            return
         self.frames[-1].append((v, self.state.copy(), st))
         self.state = None
 
